@@ -282,16 +282,16 @@ mod validity {
         }
 
         if !right_type.is_orderable() {
-            // The right argument must be a tag at this point. If it is not a tag
-            // and the second .unwrap() below panics, then our type inference
-            // has inferred an incorrect type for the variable in the argument.
-            let tag = right.unwrap().as_tag().unwrap();
-
-            errors.push(FilterTypeError::non_orderable_tag_argument_to_ordering_filter(
-                operation.operation_name(),
-                tag_name.unwrap(),
-                tag.field_type(),
-            ));
+            // A variable's type is inferred from the type of the property being filtered,
+            // so a variable can only be non-orderable when the property itself is, and that
+            // error was already reported above. Only a tag can be non-orderable on its own.
+            if let Some(tag) = right.unwrap().as_tag() {
+                errors.push(FilterTypeError::non_orderable_tag_argument_to_ordering_filter(
+                    operation.operation_name(),
+                    tag_name.unwrap(),
+                    tag.field_type(),
+                ));
+            }
         }
 
         // For the operands relative to each other, nullability doesn't matter,
